@@ -16,6 +16,14 @@ PROP = {
         # and mutants of them (same number in another kind, neighbours, one record element changed)
         dict(_ENG, name="value-random", cases={"quick": 30000, "thorough": 1000000}, min_shard=2000,
              gen_args={"quick": ["random"], "thorough": ["random"]}),
+        # `sort_by(Value::cmp)` (what `drop_or_take` does with map keys) on lists of 2..70 keys of the fragment F:
+        # the stable order is unique (theorem), so the result is compared with the model
+        dict(_ENG, name="value-sort-F", cases={"quick": 3000, "thorough": 100000}, min_shard=1000,
+             nontrivial_min_ops=1, gen_args={"quick": ["sort", "F"], "thorough": ["sort", "F"]}),
+        # ... and on arbitrary keys (floats closer than EPSILON, blobs, ...): monitor only, a panic is a violation
+        dict(_ENG, name="value-sort-any", cases={"quick": 3000, "thorough": 100000}, min_shard=1000,
+             nontrivial_min_ops=1, modes=["monitor"],
+             gen_args={"quick": ["sort", "any"], "thorough": ["sort", "any"]}),
     ],
     "rule": "a case is one instance of one law (reflexivity of a value; antisymmetry, cmp=Equal<=>==, symmetry of ==, "
             "== => equal hashes for a pair; transitivity of cmp and of == for a triple): 2-3 questions (cmp/eq/heq) put "
